@@ -34,7 +34,7 @@ def REQUIRED(tier):
 
 
 def _required(tier):
-    return ["azimuth:outside_0_360", "angles:non_degree_unit", "bytes_roundtrips", "object_roundtrips", "edits_applied", "edits_refused_file_identical", "sky:dec_in_(-1,0)", "sky:carry_59.99",
+    return ["azimuth:outside_0_360", "angles:non_degree_unit", "edit:strings_containing_keywords", "object:after_product_at_other_depth", "bytes_roundtrips", "object_roundtrips", "edits_applied", "edits_refused_file_identical", "sky:dec_in_(-1,0)", "sky:carry_59.99",
             "frame:pulsarcentric", "frame:barycentric", "frame:topocentric", "edit:absent_key", "edit:unknown_key", "edit:wrong_type", "edit:out_of_range"]
 
 
@@ -205,6 +205,11 @@ def _object(case, ctx):
         path = os.path.join(ctx.tmp, "b.fil")
         try:
             hdr = Header(**fields)
+            if j % 5 == 2:
+                # an earlier product of the same process was written at another depth through the nbits option
+                other = os.path.join(ctx.tmp, "other_depth.fil")
+                hdr.prep_outfile(other, nbits=8 if nbits != 8 else 32).close()
+                ctx.count("object:after_product_at_other_depth")
             fw = hdr.prep_outfile(path)
             fw.close()
             back = Header.from_sigproc(path)
@@ -242,12 +247,22 @@ def _edit(case, ctx):
     rng = np.random.default_rng([case["seed"], 11])
     present = [k for k in ALLKEYS if k in ("nbits", "nchans") or rng.random() < 0.75]
     rng.shuffle(present)
+    names_inside = bool(case["seed"] % 3 == 1)
+    if names_inside:
+        # strings that happen to contain header keywords (an archive path built from the observing set-up), stored before those keywords
+        present = [k for k in present if k not in ("rawdatafile", "source_name")]
+        present = ["rawdatafile", "source_name"] + present
+        ctx.count("edit:strings_containing_keywords")
     items = []
     for k in present:
         if k == "nbits":
             v = int(rng.choice([1, 2, 4, 8, 16, 32]))
         elif k == "nchans":
             v = int(rng.integers(1, 64))
+        elif names_inside and k == "rawdatafile":
+            v = "/archive/P999/nbits8_tsamp64us_nchans1024/fch1_1500/foff-1/tstart58000/refdm0/ibeam03.raw"
+        elif names_inside and k == "source_name":
+            v = "src_raj0437_src_dej-4715_nifs1"
         elif k == "source_name":
             v = _rand_str(rng, 3, 20)
         else:
